@@ -42,8 +42,15 @@ pub fn judge(case: &ReadCase, which: Impl, o: &ReadOutcome, p: &mut Part) {
     let mut frame_idx = 0usize;
     let mut keepalives_returned = 0usize;
     let reply = reply_frame(case.compressed);
+    // on a buffering transport the reply is on the wire when a flush has moved it there
+    let buffered = case.flush > 0 && which == Impl::Tokio;
     for ev in &o.events {
         match ev {
+            Ev::TWrite { .. } if buffered => {},
+            Ev::TFlush { moved } => {
+                since_last.extend_from_slice(&o.written[written_pos..written_pos + moved]);
+                written_pos += moved;
+            },
             Ev::TWrite { accepted, .. } => {
                 since_last.extend_from_slice(&o.written[written_pos..written_pos + accepted]);
                 written_pos += accepted;
@@ -142,7 +149,7 @@ pub fn run(ctx: &mut Ctx) -> (&'static str, String, bool) {
                     // preceded and followed by a non-keepalive so that ordering is visible
                     let ping = [f[0], 3, 9, 3];
                     let stream = [&ping[..], &f[..], &ping[..]].concat();
-                    let case = ReadCase { compressed, stream, read_plan: vec![], default_read: 0, write_plan: vec![WAct::Accept(1), WAct::Accept(2)], verify_version: false, label: format!("tiny-subt{subt}-reqi{reqi}") };
+                    let case = ReadCase { compressed, stream, read_plan: vec![], default_read: 0, write_plan: vec![WAct::Accept(1), WAct::Accept(2)], verify_version: false, flush: 0, label: format!("tiny-subt{subt}-reqi{reqi}") };
                     run_both(&case, &mut p);
                     p.distinct_extra += 2;
                 }
@@ -198,7 +205,7 @@ pub fn run(ctx: &mut Ctx) -> (&'static str, String, bool) {
                     _ => WAct::Accept(1 + r.usize_below(4)),
                 })
                 .collect();
-            let case = ReadCase { compressed, stream, read_plan: plan, default_read, write_plan: wplan, verify_version: i % 3 == 0, label: format!("history-{i}") };
+            let case = ReadCase { compressed, stream, read_plan: plan, default_read, write_plan: wplan, verify_version: i % 3 == 0, flush: [0, 0, 1, 2, 3][(i % 5) as usize], label: format!("history-{i}") };
             p.distinct(&case.stream);
             run_both(&case, &mut p);
             if i == 0 {
@@ -227,7 +234,7 @@ pub fn run(ctx: &mut Ctx) -> (&'static str, String, bool) {
                 }
                 let stream = [&f[..], &ka[..], &f[..], &ka[..], &ka[..], &f[..]].concat();
                 for seg in [0usize, 1, 5] {
-                    let case = ReadCase { compressed, stream: stream.clone(), read_plan: vec![RAct::Bytes(3)], default_read: seg, write_plan: vec![], verify_version: false, label: format!("around-{}-seg{seg}", lay.name) };
+                    let case = ReadCase { compressed, stream: stream.clone(), read_plan: vec![RAct::Bytes(3)], default_read: seg, write_plan: vec![], verify_version: false, flush: 0, label: format!("around-{}-seg{seg}", lay.name) };
                     run_both(&case, &mut p);
                     p.distinct(&(compressed, &lay.name, seg));
                 }
@@ -246,15 +253,15 @@ pub fn run(ctx: &mut Ctx) -> (&'static str, String, bool) {
             let k = reply_frame(compressed);
             let ping = [k[0], 3, 9, 3];
             for (label, stream) in [("ka", k.to_vec()), ("ping-ka-ping", [&ping[..], &k[..], &ping[..]].concat()), ("ka-ka-ping", [&k[..], &k[..], &ping[..]].concat())] {
-                for (wp, wk) in [(1usize, 1usize), (1, 3), (2, 2), (0, 0)] {
-                    jobs.push((compressed, label, stream.clone(), wp, wk));
+                for (wp, wk, fl) in [(1usize, 1usize, 0usize), (1, 3, 0), (2, 2, 0), (0, 0, 0), (0, 0, 2), (1, 2, 3), (0, 0, 1)] {
+                    jobs.push((compressed, label, stream.clone(), wp, wk, fl));
                 }
             }
         }
         let parts: Vec<Part> = jobs
             .par_iter()
             .enumerate()
-            .map(|(ji, (compressed, label, stream, wp, wk))| {
+            .map(|(ji, (compressed, label, stream, wp, wk, fl))| {
                 let rt = runtime();
                 let _g = rt.enter();
                 let mut p = Part::new();
@@ -268,7 +275,7 @@ pub fn run(ctx: &mut Ctx) -> (&'static str, String, bool) {
                     }
                     wplan.push(WAct::Accept(if *wk == 0 { usize::MAX } else { *wk }));
                 }
-                let base = Session { compressed: *compressed, stream: stream.clone(), read_plan: vec![RAct::Pending], default_read: 0, write_plan: wplan, default_write: 0, drops: BTreeSet::new(), write_after_drop: false, label: format!("{label}-w{wp}x{wk}") };
+                let base = Session { compressed: *compressed, stream: stream.clone(), read_plan: vec![RAct::Pending], default_read: 0, write_plan: wplan, default_write: 0, drops: BTreeSet::new(), write_after_drop: false, flush_plan: if *fl == 0 { None } else { Some((0..200).map(|i| i % fl != fl - 1).collect()) }, label: format!("{label}-w{wp}x{wk}-f{fl}") };
                 let total = run_session(&base).polls;
                 let (frames, _) = ref_frames(stream, *compressed);
                 let kas = frames.iter().filter(|f| is_keepalive_frame(f)).count();
@@ -286,10 +293,10 @@ pub fn run(ctx: &mut Ctx) -> (&'static str, String, bool) {
                     let replay = json!({"mode": mode_name(*compressed), "label": s.label, "stream": hex(stream), "drops": s.drops.iter().take(64).collect::<Vec<_>>(), "outgoing": hex(&o.written), "suspended_on": o.suspended_on});
                     if o.runaway {
                         p.violation("C07/tokio/cancelled-read/runaway", format!("[{}] session did not finish after the read was dropped", s.label), replay);
-                    } else if !rest.is_empty() || replies != kas || out_frames.len() != replies {
+                    } else if !rest.is_empty() || replies != kas || out_frames.len() != replies || o.staged_left > 0 {
                         p.violation(
                             "C07/tokio/cancelled-read/reply-count",
-                            format!("{} [{}]: {kas} keep-alive(s) received, read dropped after poll(s) {:?}: outgoing bytes {} hold {replies} whole reply frame(s) and {} stray byte(s)", mode_name(*compressed), s.label, s.drops.iter().take(8).collect::<Vec<_>>(), hex(&o.written), rest.len()),
+                            format!("{} [{}]: {kas} keep-alive(s) received, read dropped after poll(s) {:?}: outgoing bytes {} hold {replies} whole reply frame(s) and {} stray byte(s); {} byte(s) accepted but never flushed", mode_name(*compressed), s.label, s.drops.iter().take(8).collect::<Vec<_>>(), hex(&o.written), rest.len(), o.staged_left),
                             replay,
                         );
                     } else if handed != kas {
